@@ -412,7 +412,8 @@ fn feasibility(world: &World, ctx: &InsertionContext) -> Vec<(String, String)> {
             findings
             .into_iter()
             .filter(|f| f.rule.starts_with("C01:") || f.rule == "C02:job-split" || f.rule == "C02:pickup-after-delivery" || f.rule == "C02:vehicle-shift-twice")
-            .map(|f| (format!("I5:{}", f.rule), f.what))
+            // a tour over an unreachable leg is named by problem and leg (as in C01), whatever operator left it behind
+            .map(|f| (format!("I5:{}", if f.rule == "C01:unreachable-leg" { super::c01::finding_key(&f, &world.family, &world.problem) } else { f.rule.clone() }), f.what))
             .collect()
         }
         Ok(Err(e)) => vec![("I5:cannot-write".into(), e)],
@@ -429,7 +430,7 @@ fn cache_consistency(world: &World, ctx: &InsertionContext, report: &mut Report)
         .solution
         .routes
         .iter()
-        .map(|rc| (rc.route().actor.vehicle.dimens.get_vehicle_id().cloned().unwrap_or_default(), {
+        .map(|rc| (format!("{}#{:x}", rc.route().actor.vehicle.dimens.get_vehicle_id().cloned().unwrap_or_default(), Arc::as_ptr(&rc.route().actor) as usize), {
             let (d, opaque) = rc.state().verif_digest();
             report.add_count("opaque_state_entries", opaque as u64);
             let mut d = d;
@@ -487,7 +488,8 @@ fn cache_consistency(world: &World, ctx: &InsertionContext, report: &mut Report)
         return errs;
     }
     for (vid, state) in &before {
-        let Some(rc) = copy.solution.routes.iter().find(|rc| rc.route().actor.vehicle.dimens.get_vehicle_id() == Some(vid)) else { continue };
+        // a vehicle with two shifts drives two tours under one id: routes are told apart by their actor
+        let Some(rc) = copy.solution.routes.iter().find(|rc| vid.ends_with(&format!("#{:x}", Arc::as_ptr(&rc.route().actor) as usize))) else { continue };
         let (mut d, _) = rc.state().verif_digest();
         d.extend(rc.route().tour.all_activities().map(|a| format!("sched:{}-{}", a.schedule.arrival, a.schedule.departure)));
         if &d != state {
@@ -579,7 +581,9 @@ fn observe_insertions(goal: Arc<GoalContext>) -> InsertionSink {
     let sink: InsertionSink = Default::default();
     let s = sink.clone();
     verif_observer::install(Box::new(move |ctx: &InsertionContext| {
-        let errs = route_caches_after_insertion(goal.as_ref(), ctx);
+        // infeasible-space search builds its contexts under a goal of its own (constraints relaxed on purpose): what its
+        // caches should hold is not defined by the problem's goal, such insertions are counted, not judged
+        let errs = if Arc::ptr_eq(&ctx.problem.goal, &goal) { route_caches_after_insertion(goal.as_ref(), ctx) } else { vec![("-not-comparable".into(), String::new())] };
         let mut b = s.borrow_mut();
         b.0 += 1;
         if errs.iter().any(|(k, _)| k == "-not-comparable") {
@@ -609,9 +613,9 @@ fn slice(tier: Tier) -> Vec<(String, PProblem)> {
         let step = (candidates.len() / per.max(1)).max(1);
         let mut picked: Vec<PProblem> = candidates.iter().step_by(step).take(per).cloned().collect();
         // shapes with per-tour caches of their own are always part of the slice: groups / compatibility / order / value,
-        // tour-shape objectives (balance, compact tour, fast service)
+        // tour-shape objectives (balance, compact tour, fast service), reloads / shared resources / breaks / two shifts
         for p in &candidates {
-            let special = p.name.starts_with("attr/v") || name == "shape";
+            let special = p.name.starts_with("attr/v") || name == "shape" || name == "cond";
             if special && !picked.iter().any(|q| q.name == p.name) {
                 picked.push(p.clone());
             }
@@ -638,6 +642,7 @@ fn slice(tier: Tier) -> Vec<(String, PProblem)> {
             relations: vec![],
             objectives: None,
             clustering: None,
+                resources: vec![],
         };
         p = p.fit_matrices();
         out.push(("widelock".to_string(), p));
@@ -808,7 +813,8 @@ fn judge_state(ctx: &RunCtx, world: &World, state: &InsertionContext, root: &str
         let mut seen = HashSet::new();
         for (key, what) in errs {
             if seen.insert(key.clone()) {
-                report.violation(Violation::new(format!("{key}:{}:{op_class}", world.family), what, scen(world, root, hist, names)));
+                let full = if key.starts_with("I5:C01:unreachable-leg:") { key.clone() } else { format!("{key}:{}:{op_class}", world.family) };
+                report.violation(Violation::new(full, what, scen(world, root, hist, names)));
             }
         }
     }
@@ -869,6 +875,20 @@ pub fn replay(ctx: &RunCtx, scenario: &Value) -> Result<Vec<Violation>, String> 
         .filter_map(|h| Some((names.iter().position(|n| Some(n.as_str()) == h[0].as_str())?, h[1].as_u64()?)))
         .collect();
     let mut report = Report::new("model_checking");
+    // C05: the per-insertion observations of the root constructions and of every step of the history
+    if is_c05(ctx) {
+        let sink = observe_insertions(world.core.goal.clone());
+        let _ = world.roots();
+        let _ = rebuild(&world, &root, &ops_for, &history);
+        verif_observer::uninstall();
+        let (_, errs, _) = std::mem::take(&mut *sink.borrow_mut());
+        let mut seen = HashSet::new();
+        for (key, what) in errs {
+            if seen.insert(key.clone()) {
+                report.violation(Violation::new(format!("{key}:{}", world.problem.name), what, scenario.clone()));
+            }
+        }
+    }
     // every prefix state is judged again
     for k in 0..=history.len() {
         match rebuild(&world, &root, &ops_for, &history[..k]) {
